@@ -5,6 +5,7 @@ pub mod c04;
 pub mod c10;
 pub mod c11;
 pub mod c14;
+pub mod c16;
 pub mod c17;
 pub mod c19;
 pub mod c18;
@@ -18,6 +19,7 @@ pub fn lookup(id: &str) -> Option<Monitor> {
     "C10" => Some(c10::monitor()),
     "C11" => Some(c11::monitor()),
     "C14" => Some(c14::monitor()),
+    "C16" => Some(c16::monitor()),
     "C17" => Some(c17::monitor()),
     "C18" => Some(c18::monitor()),
     "C19" => Some(c19::monitor()),
